@@ -61,7 +61,18 @@ def gen_program(ctx, rng, maxenv=200):
     return decls, cons, keys
 
 
+class SetupFailed(Exception):
+    pass
+
+
 def setup(decls, cons, keys):
+    try:
+        return _setup(decls, cons, keys)
+    except Exception as ex:      # noqa
+        raise SetupFailed(vlib.err_name(ex))
+
+
+def _setup(decls, cons, keys):
     from cspuz import Solver
     s = Solver()
     vs = G.declare(s, decls)
@@ -96,6 +107,16 @@ def bounded_z3(bound):
                 return Z3Backend.solve(self)
         _BZ3[bound] = BoundedZ3
     return _BZ3[bound]
+
+
+def run_case(decls, cons, keys, backend):
+    """declare + ensure + add_answer_key + solve; -> (result, sols, solver or None)"""
+    try:
+        s, vs = setup(decls, cons, keys)
+    except SetupFailed as ex:
+        return ("err", "Other"), [None] * len(decls), None
+    r, sols = run_solve(s, vs, backend)
+    return r, sols, s
 
 
 def run_solve(s, vs, backend):
@@ -204,10 +225,9 @@ def scripted_case(ctx, rng, m_reqs, cases):
             else:
                 script.append(tuple(rng.choice(dm) for dm in doms))
     ctx.count("policy:" + policy)
-    s, vs = setup(decls, cons, keys)
     log, given = [], []
     cls = make_scripted(policy, rng, ms, script, log, given)
-    r, sols = run_solve(s, vs, cls)
+    r, sols, _s = run_case(decls, cons, keys, cls)
     clauses = [c for k, c in log if k == "add"]
     impl = result_tok(r, sols) + " | " + exprio.show_list(clauses)
     fuel = "auto" if policy != "script" else str(len(script) + 2)
@@ -249,7 +269,7 @@ def correspond(ctx):
     ctx._c02 = {"z3": [], "scripted": []}
 
     reqs, cases = [], []
-    for it in range(300 if not ctx.thorough else 6000):
+    for it in range(600 if not ctx.thorough else 6000):
         scripted_case(ctx, rng, reqs, cases)
     outs = m.batch(reqs)
     for c, o in zip(cases, outs):
@@ -259,14 +279,13 @@ def correspond(ctx):
     ctx._c02["scripted"] = cases
 
     reqs, cases = [], []
-    n = 100 if not ctx.thorough else 3000
+    n = 250 if not ctx.thorough else 3000
     if getattr(ctx, "deep", False):
         n *= 3
     for it in range(n):
         decls, cons, keys = gen_program(ctx, rng)
-        s, vs = setup(decls, cons, keys)
-        r, sols = run_solve(s, vs, "z3")
-        st = G.state_tok(decls, keys, list(s.constraints))
+        r, sols, s = run_case(decls, cons, keys, "z3")
+        st = G.state_tok(decls, keys, list(s.constraints)) if s is not None else "setup-failed " + repr((decls, keys))
         ksols = [x if k else None for x, k in zip(sols, keys)]
         reqs.append("SOLVEKEYS " + st)
         reqs.append("FACTS " + st)
@@ -287,11 +306,10 @@ def expected(decls, cons, keys):
 
 
 def solve_fails(decls, cons, keys, backend="z3"):
-    s, vs = setup(decls, cons, keys)
     if backend == "native":
         ms = G.models(decls, cons)
         backend = make_native(ms, keys, [])
-    r, sols = run_solve(s, vs, backend)
+    r, sols, _s = run_case(decls, cons, keys, backend)
     er, f = expected(decls, cons, keys)
     if r != er:
         return "verdict", "solve() -> %s, but the program is %s" % (
@@ -312,8 +330,11 @@ def report(ctx, decls, cons, keys, backend, first):
         return x is not None and x[0] == cat
     small = G.shrink(decls, cons, same, budget=120) if cons else cons
     now = solve_fails(decls, small, keys, backend) or first
-    s, vs = setup(decls, small, keys)
-    st = G.state_tok(decls, keys, list(s.constraints))
+    try:
+        s, vs = setup(decls, small, keys)
+        st = G.state_tok(decls, keys, list(s.constraints))
+    except SetupFailed:
+        st = "setup-failed " + repr((decls, keys, small))
     er, f = expected(decls, small, keys)
     ctx.violation("solve-%s-%s" % (backend, md5(st)), now[1],
                   {"decls": [list(d) if d != "b" else "b" for d in decls], "keys": keys,
@@ -346,7 +367,7 @@ def search(ctx):
             progs.append(gen_program(ctx, rng))
     for (decls, cons, keys) in progs:
         check_case(ctx, decls, cons, keys, "z3")
-    for (decls, cons, keys) in progs[: (60 if not ctx.thorough else len(progs))]:
+    for (decls, cons, keys) in progs[: (150 if not ctx.thorough else len(progs))]:
         check_case(ctx, decls, cons, keys, "native")
     # the scripted runs with a conformant live backend are also instances of the property
     if data:
